@@ -5,6 +5,8 @@ import Goat.Model.Custom
 Ops of C10.
   c10.encode     [bool addr, ty, val]        → ok json | err | panic     EncodeCustom's `encode`
   c10.decode     [ty, json]                  → ok val  | err | panic     DecodeCustom's `decode` into a zero value
+  c10.encodeCustom [raw (obj | null = nil map), bool addr, ty, val] → ok obj (the new Claims.Raw)   (*Claims).EncodeCustom
+  c10.decodeInto [ty, val cur, json]         → ok val                    DecodeCustom into the current destination value
   c10.claims.enc [claims]                    → ok bytes | err            encodeClaims
   c10.claims.rt  [claims]                    → ok claims | err           encodeClaims, then parseClaims
   c10.int        [int bits, bool unsigned, str text] → ok int | err      json.Number into an integer kind
@@ -18,6 +20,12 @@ def ops : OpTable := [
     (encode 200 (arg a 0).asBool (Ty.ofWire (arg a 1)) (Val.ofWire (arg a 2))).toOp),
   ("c10.decode", fun a =>
     (do let v ← decode 200 (Ty.ofWire (arg a 0)) (arg a 1); pure v.toWire : PO Wire).toOp),
+  ("c10.encodeCustom", fun a =>
+    let raw := match arg a 0 with | .obj kvs => some kvs | _ => none
+    (do let r ← encodeCustom 200 raw (arg a 1).asBool (Ty.ofWire (arg a 2)) (Val.ofWire (arg a 3))
+        pure (.obj r) : PO Wire).toOp),
+  ("c10.decodeInto", fun a =>
+    (do let v ← decodeInto 200 (Ty.ofWire (arg a 0)) (Val.ofWire (arg a 1)) (arg a 2); pure v.toWire : PO Wire).toOp),
   ("c10.claims.enc", fun a =>
     (do let b ← encodeClaims (Claims.ofWire (arg a 0)); pure (.bytes b) : PO Wire).toOp),
   ("c10.claims.rt", fun a =>
